@@ -19,6 +19,8 @@ func main() {
 	switch os.Args[1] {
 	case "run":
 		runCmd(os.Args[2:])
+	case "diff":
+		diffCmd(os.Args[2:])
 	case "check":
 		os.Exit(checkCmd(os.Args[2:]))
 	default:
@@ -57,6 +59,15 @@ func runCmd(args []string) {
 		os.Exit(2)
 	}
 	fmt.Printf("executed: %d instrs, %d terms, %d obligations, %d assumes in %v (feasibility queries %d, pruned %d, %v)\n", x.NInstr, x.U.NumTerms(), len(x.Obligs), len(x.Assumes), time.Since(t0), x.FeasQ, x.FeasPruned, x.FeasTime)
+	if os.Getenv("GSX_CONCRETE") != "" {
+		for _, o := range x.Observes {
+			fmt.Printf("OBS %s guard=%s val=%s\n", o.Name, o.G.Show(3), x.ShowValue(o.V))
+		}
+		for _, ob := range x.Obligs {
+			fmt.Printf("OBLIG %s %q cond=%s\n", ob.Kind, ob.Msg, ob.Cond.Show(3))
+		}
+		return
+	}
 	r := eng.Discharge(x, inst, eng.SolveOpts{Solver: *solver, LogFile: *logf})
 	fmt.Printf("status=%s err=%q queries=%d (unsat %d sat %d unknown %d) solver=%v reach %d/%d\n", r.Status, r.Err, r.Queries, r.Unsat, r.Sat, r.Unknown, r.SolverTime, r.ReachSat, r.ReachTotal)
 	for _, v := range r.Violations {
@@ -71,4 +82,83 @@ func runCmd(args []string) {
 			fmt.Printf("   %s = %s\n", name, strings.Join(vs, ","))
 		}
 	}
+}
+
+
+// diffCmd: encoder debugging. Runs the harness symbolically with inputs pinned
+// to a replay job, takes the solver's model of the first violation, runs the
+// harness again with constant inputs and reports the first register whose
+// model value differs from the constant-folded value.
+func diffCmd(args []string) {
+	job := args[0]
+	pkg, fn := args[1], args[2]
+	ov, _, _ := eng.HarnessOverlay("/verif/harness")
+	L, err := eng.Load(ov)
+	if err != nil {
+		panic(err)
+	}
+	inst := eng.Instance{Name: fn, Pkg: pkg, Func: fn, Cfg: eng.Config{DefaultUnwind: 8}}
+	for _, a := range args[3:] {
+		v, _ := strconv.ParseInt(a, 0, 64)
+		inst.Args = append(inst.Args, v)
+	}
+	os.Setenv("GSX_TRACE", "1")
+	os.Setenv("GSX_PIN", job)
+	xs, err := L.Execute(inst)
+	if err != nil {
+		panic(err)
+	}
+	r := eng.Discharge(xs, inst, eng.SolveOpts{})
+	if len(r.Violations) == 0 {
+		fmt.Println("no violation under pinned inputs: status", r.Status)
+		return
+	}
+	m := r.Violations[0].Model
+	fmt.Println("violation:", r.Violations[0].Oblig.Msg)
+	for _, ob := range xs.Obligs {
+		if m.Eval(ob.Cond) == 1 {
+			fmt.Printf("MODEL-TRUE obligation %s: %s (%s)\n", ob.Kind, ob.Msg, ob.Pos)
+		}
+	}
+	for i, a := range xs.Assumes {
+		if m.Eval(a) != 1 {
+			fmt.Printf("MODEL-FALSE assumption #%d: %s\n", i, a.Show(5))
+		}
+	}
+	os.Unsetenv("GSX_PIN")
+	os.Setenv("GSX_CONCRETE", job)
+	xc, err := L.Execute(inst)
+	if err != nil {
+		panic(err)
+	}
+	n := 0
+	for _, k := range xs.TraceOrder {
+		if strings.Contains(k, "/ret") {
+			st := xs.TraceRegs[k]
+			if strings.Contains(st.Desc, "doCompute") || strings.Contains(st.Desc, "Load") {
+				fmt.Printf("SYMRET %s %s: guard(model)=%d\n", k, st.Desc, m.Eval(st.V))
+			}
+		}
+	}
+	for _, k := range xs.TraceOrder {
+		st := xs.TraceRegs[k]
+		ct, ok := xc.TraceRegs[k]
+		if !ok || m.Eval(st.G) != 1 {
+			continue
+		}
+		if strings.Contains(k, "/ret") && strings.Contains(st.Desc, "doCompute") {
+			fmt.Printf("RET %s: symbolic guard=%d concrete=%s\n", st.Desc, m.Eval(st.V), ct.V.Show(1))
+		}
+		if !ct.G.IsTrue() || !ct.V.IsConst() {
+			continue
+		}
+		if m.Eval(st.V) != ct.V.Val {
+			fmt.Printf("DIVERGE %s\n   symbolic(model)=%#x concrete=%#x\n   term: %s\n", st.Desc, m.Eval(st.V), ct.V.Val, st.V.Show(4))
+			n++
+			if n > 6 {
+				break
+			}
+		}
+	}
+	fmt.Println("compared", len(xs.TraceOrder), "registers;", n, "divergences shown")
 }
